@@ -174,9 +174,15 @@ class Gen:
                 written = written  # the written path does not exist either
             out.append('.include "%s"' % written)
             return
+        lab = None
+        if rng.random() < 0.2:
+            # a label in front of the directive is the location of its own line, i.e. of the first thing the file contributes
+            lab = "il%d" % self.nfile
+            flat.append(lab + ":")
+            self.syms.append(lab)
         self.statements(lines, sub_flat, depth + 1, d, False)
         self.files[d + "/" + name] = "\n".join(lines) + "\n"
-        out.append('.include "%s"' % written)
+        out.append(('%s: ' % lab if lab else "") + '.include "%s"' % written)
         flat += sub_flat
 
     def build(self):
@@ -194,6 +200,48 @@ def flat_has_code(flat):
 
 def strip_lines(msgs):
     return [re.sub(r"line: \d+", "line: N", m) for m in msgs]
+
+
+def same_name_trees(base):
+    """several files of ONE name in different directories, each included by its neighbour with the same operand text: every
+    .include is resolved on its own (the includer's directory is searched, the other modules' directories are not)"""
+    out = []
+    k = 0
+
+    def tree(main_lines, files, flat, missing=None):
+        nonlocal k
+        k += 1
+        r = "%s/same%d" % (base, k)
+        fs = {r + "/proj/main.asm": "\n".join(main_lines) + "\n"}
+        fs.update({r + "/proj/" + p: t for p, t in files.items()})
+        dirs = sorted(set([r, r + "/proj"] + [os.path.dirname(p) for p in fs]))
+        out.append(dict(cwd=r + "/proj", main="main.asm", paths=[], dirs=dirs, files=fs, missing=missing, flat=flat, hows=["same-name"], mode="A"))
+
+    for n in (2, 3, 4):
+        mods = ["mod%d" % i for i in range(n)]
+        files, flat, main = {}, "", []
+        for i, m in enumerate(mods):
+            files["%s/module.inc" % m] = '.include "defs.inc"\n .dw %d\n' % (i + 1)
+            files["%s/defs.inc" % m] = " .dw 0x%d%d\n.equ k%d = %d\n" % (i + 1, i + 1, i, i)
+            main.append('.include "%s/module.inc"' % m)
+            flat += " .dw 0x%d%d\n.equ k%d = %d\n .dw %d\n" % (i + 1, i + 1, i, i, i + 1)
+        tree(main, files, flat)
+        # the same, the last module's own file missing: nothing of the others' directories is searched for it
+        f2 = dict(files)
+        del f2["%s/defs.inc" % mods[-1]]
+        tree(main, f2, flat, missing="defs.inc")
+        # two levels below each module
+        f3, flat3 = {}, ""
+        for i, m in enumerate(mods):
+            f3["%s/module.inc" % m] = '.include "sub/common.inc"\n .dw %d\n' % (i + 1)
+            f3["%s/sub/common.inc" % m] = '.include "leaf.inc"\n .dw %d\n' % (10 * (i + 1))
+            f3["%s/sub/leaf.inc" % m] = " .dw %d\n" % (100 * (i + 1))
+            flat3 += " .dw %d\n .dw %d\n .dw %d\n" % (100 * (i + 1), 10 * (i + 1), i + 1)
+        tree(main, f3, flat3)
+    # control: one file included several times is read every time (a .set variable shows it)
+    tree([".set n = 0", '.include "inc/bump.inc"', '.include "inc/bump.inc"', '.include "inc/bump.inc"', " .dw n"],
+         {"inc/bump.inc": ".set n = n + 1\n .dw n\n"}, ".set n = 0\n" + ".set n = n + 1\n .dw n\n" * 3 + " .dw n\n")
+    return out
 
 
 def odd_cases(base):
@@ -301,6 +349,7 @@ def run(res):
     for i in range(n):
         c = Gen(rng, "%s/t%d" % (base, i), i).build()
         cases.append(c)
+    cases += same_name_trees(base)
     odd = odd_cases(base)
     try:
         rows = fsrun.run_cases(vh, exe, cases + odd)
